@@ -49,6 +49,10 @@ def parsePubTok (s : String) : Option Bytes :=
 /-- content token: `t` this session's secret, `o` another session's secret, `m<j>` -/
 def parseContent (sessSecret : Bytes) (s : String) : Option Bytes :=
   if s = "t" then some sessSecret
+  else if s = "p" then          -- the secret of the previous session of this case (replay)
+    (match sessSecret with
+      | [1, hi, lo] => some (4 :: b2 (hi.toNat * 256 + lo.toNat - 1))
+      | _ => some [4])
   else if s = "o" then some [2]
   else match s.toList with
     | 'm' :: r => (keyNum (String.ofList r)).map (fun j => 3 :: b2 j)
